@@ -63,10 +63,12 @@ CHECKS = {
               'interleavings inside a worker touch no shared state.'),
     'C05': _e('exploration',
               'reference-model monitor on the real AnnDataRowIterator '
-              '(iteration, get_chunk, get_batch, __getitem__): files written '
+              '(iteration, get_chunk, get_batch, __getitem__, and random '
+              'access interleaved with an iteration): files written '
               'by anndata from in-memory matrices with unique ids as values, '
-              're-chunked with h5py; exhaustive 0/1 patterns up to 3x3 + '
-              'random matrices; differential monitor: mapping results and '
+              're-chunked with h5py, sparse minor indices sorted or shuffled, '
+              'values at the edges of every stored type; exhaustive 0/1 '
+              'patterns up to 3x3 + random matrices; differential monitor: mapping results and '
               'statistics files bitwise equal across dense / CSR / CSC',
               'Every yielded chunk and requested row list compared exactly '
               'with the matrix held in memory.',
@@ -75,7 +77,8 @@ CHECKS = {
               'metamorphic differential monitor: base run vs runs on '
               'permuted / sub-sampled / embedded (among ordinary and among '
               '1e9-1e17 times brighter cells) / duplicated cells and other '
-              'chunkings / encodings, joined on cell id',
+              'chunkings / encodings, and the query file rewritten in place and '
+              'mapped again by the same process; joined on cell id',
               'Relation checked on every joined cell of every transformed '
               'run; near-tie cells (independent oracle) are don\'t-care.',
               'DESIGN.md section 2 C06', _BASE_NOTE),
@@ -96,7 +99,8 @@ CHECKS = {
               'reports, the gene lists of the node trace events and the '
               'errors it raises',
               'Thousands of generated tables per run against the real '
-              'reconciliation code plus end-to-end mappings.',
+              'reconciliation code plus end-to-end mappings whose votes are '
+              'recomputed by gene name (value-level pairing).',
               'DESIGN.md section 2 C08', _BASE_NOTE),
     'C09': _e('exploration',
               'reference-model monitor: the real statistics writers, '
@@ -126,7 +130,10 @@ CHECKS = {
               'soundness of every recorded marker, completeness for every '
               'strictly qualifying gene, direction, pair-major / gene-major '
               'transpose structure; metamorphic renaming; differential over '
-              'worker count and memory budget',
+              'worker count (1-4) and memory budget (down to 1e-9); classes '
+              'forced per case index: tuned Holm threshold, engineered '
+              'zero-variance genes, unexpressed gene blocks, clusters over '
+              '1290 cells, tables over 200 entries at a few bytes of budget',
               'Thousands of (pair, gene) decisions per run; don\'t-care '
               'bands counted.',
               'DESIGN.md section 2 C11', _BASE_NOTE),
@@ -157,7 +164,11 @@ CHECKS = {
               'sys.exit(7), raise} x {before, mid-way, after}; monitor on the parent call (must raise), on '
               'the victim exit code (fault really delivered) and on the '
               'files left behind (no results / CSV / success message; '
-              'partial stage outputs fed to the next stage\'s reader)',
+              'partial stage outputs fed to the next stage\'s reader); an '
+              'injected exception swallowed inside the worker is a violation '
+              'when the call returns a result different from the fault-free '
+              'run; 12 stage entries incl. statistics over a file list and '
+              'reference markers at a budget of a few bytes',
               'Thorough tier enumerates the full (stage, worker, mode, '
               'point) product on a small input; quick tier covers every '
               '(stage, mode, point) on a rotating worker, plus the first and '
